@@ -30,6 +30,7 @@ from ural.quote import (
     safely_quote,
     safely_quote_qsl,
     upper_quoted,
+    unquote_letters,
 )
 from ural.patterns import PROTOCOL_RE, CONTROL_CHARS_RE
 from ural.facebook import is_facebook_url, parse_facebook_url
@@ -298,8 +299,9 @@ def normalize_url(
         return original_url_arg
 
     # Fixing common mistakes
+    # NOTE: the letters of the entity can be escaped too ("&%61mp;")
     if fix_common_mistakes and query:
-        query = fix_common_query_mistakes(query)
+        query = fix_common_query_mistakes(unquote_letters(query))
 
     # Handling punycode
     if hostname:
